@@ -208,4 +208,169 @@ theorem C14_seq_budget_wordproxy (cfg : Config) (els : List Elem) :
     ∀ c ∈ chunk cfg wordProxy els, c.oversized = false → wordCount c.text ≤ cfg.maxTokens :=
   C14_seq_budget cfg wordProxy els (fun _ a b => C14_wordproxy_additive a b '\n' (by decide))
 
+/-! ## `HybridChunker::chunk_with_graph` -/
+
+/- FULL (false of the current code — see the three witnesses below):
+   theorem C14_graph_partition (cfg cnt els) :
+       Covers ((chunkWithGraph cfg cnt els).flatMap (·.elements)) els
+   theorem C14_graph_budget (cfg cnt els) (hadd : cnt.additive = true → AdditiveNl cnt.count) :
+       ∀ c ∈ chunkWithGraph cfg cnt els, c.oversized = false → cnt.count c.text ≤ cfg.maxTokens
+-/
+
+theorem processSection_covers (cfg : Config) (cnt : Counter) (s : Sec) :
+    Covers ((processSection cfg cnt s).flatMap (·.elements)) s.elems := by
+  unfold processSection
+  simp only
+  split
+  · simpa [mkChunk] using Covers.refl s.elems
+  · have := C14_seq_partition cfg cnt s.elems
+    simpa [List.flatMap_map, Function.comp_def] using this
+
+/-- **Partition (graph), partial.**  When every non-title element after the first title names the
+most recent title as its `parent_heading` (`WellSectioned` — what `partition()` produces), the
+graph chunker's chunks contain every element's content exactly once and in order. -/
+theorem C14_graph_partition_partial (cfg : Config) (cnt : Counter) (els : List Elem)
+    (hw : WellSectioned els) :
+    Covers ((chunkWithGraph cfg cnt els).flatMap (·.elements)) els := by
+  unfold chunkWithGraph
+  rw [List.flatMap_append]
+  have h1 := C14_seq_partition cfg cnt (preamble els)
+  have h2 : Covers (((sections els).flatMap (processSection cfg cnt)).flatMap (·.elements))
+      (afterPreamble els) := by
+    rw [← sections_flatten els hw, List.flatMap_assoc]
+    exact covers_flatMap _ _ _ (fun s _ => processSection_covers cfg cnt s)
+  have := Covers.append h1 h2
+  rwa [preamble_append_after] at this
+
+example : WellSectioned
+    [⟨.paragraph, .text ['p'], ⟨1, 0, none, [], none, false, false, false⟩⟩,
+     ⟨.title, .text ['H'], ⟨2, 0, some ['H'], [], none, false, false, false⟩⟩,
+     ⟨.paragraph, .text ['q'], ⟨3, 0, some ['H'], [], none, false, false, false⟩⟩] := by
+  unfold WellSectioned; decide
+
+/-- **Budget (graph), partial.**  For a counter that is in fact additive across the element
+separator (whatever it declares), a chunk not flagged oversized fits the budget. -/
+theorem C14_graph_budget_partial (cfg : Config) (cnt : Counter) (els : List Elem)
+    (hadd : AdditiveNl cnt.count) :
+    ∀ c ∈ chunkWithGraph cfg cnt els, c.oversized = false → cnt.count c.text ≤ cfg.maxTokens := by
+  intro c hc
+  unfold chunkWithGraph at hc
+  rcases List.mem_append.1 hc with h | h
+  · exact C14_seq_budget cfg cnt _ (fun _ => hadd) c h
+  · obtain ⟨s, _, hcs⟩ := List.mem_flatMap.1 h
+    unfold processSection at hcs
+    simp only at hcs
+    split at hcs
+    · rename_i hle
+      have : c = mkChunk cnt s.elems (titleHeading s.title) false := List.mem_singleton.1 hcs
+      rw [this]; intro _
+      rw [Sec.elems, sum_counts_eq cnt.count hadd] at hle
+      simpa [Chunk.text, mkChunk, Sec.elems] using hle
+    · obtain ⟨c0, hc0, rfl⟩ := List.mem_map.1 hcs
+      exact C14_seq_budget cfg cnt _ (fun _ => hadd) c0 hc0
+
+/-- **Token estimate (graph)** — holds in full. -/
+theorem C14_graph_token_estimate (cfg : Config) (cnt : Counter) (els : List Elem) :
+    ∀ c ∈ chunkWithGraph cfg cnt els, c.tokenEstimate = cnt.count c.text := by
+  intro c hc
+  unfold chunkWithGraph at hc
+  rcases List.mem_append.1 hc with h | h
+  · exact C14_seq_token_estimate cfg cnt _ c h
+  · obtain ⟨s, _, hcs⟩ := List.mem_flatMap.1 h
+    unfold processSection at hcs
+    simp only at hcs
+    split at hcs
+    · have : c = mkChunk cnt s.elems (titleHeading s.title) false := List.mem_singleton.1 hcs
+      rw [this]; rfl
+    · obtain ⟨c0, hc0, rfl⟩ := List.mem_map.1 hcs
+      exact C14_seq_token_estimate cfg cnt _ c0 hc0
+
+/-- **Heading (graph)** — holds in full: a chunk comes either from the preamble (sequential rule)
+or from the section of a title `t`, and then carries `t`'s heading (`t.parent_heading`, else
+`t.text`) and is non-empty. -/
+theorem C14_graph_heading (cfg : Config) (cnt : Counter) (els : List Elem) :
+    ∀ c ∈ chunkWithGraph cfg cnt els,
+      (c ∈ chunk cfg cnt (preamble els) ∧ c.elements ≠ [] ∧ c.heading = seqHeading cfg c) ∨
+      (∃ s ∈ sections els, c ∈ processSection cfg cnt s ∧ c.elements ≠ [] ∧
+        c.heading = titleHeading s.title) := by
+  intro c hc
+  unfold chunkWithGraph at hc
+  rcases List.mem_append.1 hc with h | h
+  · exact Or.inl ⟨h, C14_seq_heading cfg cnt _ c h⟩
+  · obtain ⟨s, hs, hcs⟩ := List.mem_flatMap.1 h
+    refine Or.inr ⟨s, hs, hcs, ?_⟩
+    unfold processSection at hcs
+    simp only at hcs
+    split at hcs
+    · have : c = mkChunk cnt s.elems (titleHeading s.title) false := List.mem_singleton.1 hcs
+      rw [this]; exact ⟨by simp [mkChunk, Sec.elems], rfl⟩
+    · obtain ⟨c0, hc0, rfl⟩ := List.mem_map.1 hcs
+      exact ⟨(C14_seq_heading cfg cnt _ c0 hc0).1, rfl⟩
+
+/-! ### kernel-checked witnesses: the full statements fail for `chunk_with_graph` -/
+
+private def md0 (id : Nat) (ph : Option Str) : Meta := ⟨id, 0, ph, [], none, false, false, false⟩
+private def cfg100 : Config := ⟨100, true, true, false⟩
+
+/-- `[Title H1, P(H1), P(no heading), P("Gone")]`: the two paragraphs that belong to no section
+are dropped. -/
+def witnessDrop : List Elem :=
+  [⟨.title, .text ['H', '1'], md0 1 (some ['H', '1'])⟩,
+   ⟨.paragraph, .text ['o', 'n', 'e'], md0 2 (some ['H', '1'])⟩,
+   ⟨.paragraph, .text ['t', 'w', 'o'], md0 3 none⟩,
+   ⟨.paragraph, .text ['t', 'h', 'r', 'e', 'e'], md0 4 (some ['G', 'o', 'n', 'e'])⟩]
+
+theorem C14_witness_graph_drops :
+    (chunkWithGraph cfg100 wordProxy witnessDrop).flatMap (·.elements) = witnessDrop.take 2 ∧
+    ¬ Covers ((chunkWithGraph cfg100 wordProxy witnessDrop).flatMap (·.elements)) witnessDrop := by
+  have h : (chunkWithGraph cfg100 wordProxy witnessDrop).flatMap (·.elements) = witnessDrop.take 2 := by
+    decide
+  refine ⟨h, fun hc => ?_⟩
+  have := hc.length_le
+  rw [h] at this
+  simp [witnessDrop] at this
+
+/-- `[Title A, Title B, P(A), P(B)]`: children are gathered per title, so the paragraph of `A`
+is emitted before title `B` — input order is not preserved. -/
+def witnessOrder : List Elem :=
+  [⟨.title, .text ['A'], md0 1 none⟩,
+   ⟨.title, .text ['B'], md0 2 none⟩,
+   ⟨.paragraph, .text ['x'], md0 3 (some ['A'])⟩,
+   ⟨.paragraph, .text ['y'], md0 4 (some ['B'])⟩]
+
+theorem C14_witness_graph_order :
+    ¬ Covers ((chunkWithGraph cfg100 wordProxy witnessOrder).flatMap (·.elements)) witnessOrder := by
+  have h : (chunkWithGraph cfg100 wordProxy witnessOrder).flatMap (·.elements) =
+      [⟨.title, .text ['A'], md0 1 none⟩, ⟨.paragraph, .text ['x'], md0 3 (some ['A'])⟩,
+       ⟨.title, .text ['B'], md0 2 none⟩, ⟨.paragraph, .text ['y'], md0 4 (some ['B'])⟩] := by
+    decide
+  rw [h]
+  intro hc
+  obtain ⟨o1, ho1, hc1⟩ := Covers.cons_unsplittable (by decide) hc
+  cases ho1
+  obtain ⟨o2, ho2, _⟩ := Covers.cons_unsplittable (by decide) hc1
+  cases ho2
+
+/-- `[Title "abc", P "xyz"]`, counter `⌈chars/3⌉` (declares itself non-additive), budget 2: the
+section is approved by the SUM 1 + 1 ≤ 2 although the emitted text "abc\nxyz" costs 3. -/
+def witnessSum : List Elem :=
+  [⟨.title, .text ['a', 'b', 'c'], md0 1 none⟩,
+   ⟨.paragraph, .text ['x', 'y', 'z'], md0 2 (some ['a', 'b', 'c'])⟩]
+
+theorem C14_witness_graph_sum :
+    ∃ c ∈ chunkWithGraph ⟨2, true, true, false⟩ ⟨c3Count, false⟩ witnessSum,
+      c.oversized = false ∧ c3Count c.text = 3 ∧ c.tokenEstimate = 3 := by
+  decide
+
+/-- Observation about `chunk` (not a violation of the heading rule above): adjacent inline
+elements merge whatever their `parent_heading`, so without a title between them a chunk can mix
+two sections under the first one's heading.  `partition()` always emits the title in between. -/
+theorem C14_witness_seq_mixed_sections :
+    chunk cfg100 wordProxy
+      [⟨.paragraph, .text ['o', 'n', 'e'], md0 1 (some ['H', '1'])⟩,
+       ⟨.paragraph, .text ['t', 'w', 'o'], md0 2 (some ['H', '2'])⟩]
+    = [⟨[⟨.paragraph, .text ['o', 'n', 'e'], md0 1 (some ['H', '1'])⟩,
+         ⟨.paragraph, .text ['t', 'w', 'o'], md0 2 (some ['H', '2'])⟩], some ['H', '1'], false, 2⟩] := by
+  decide
+
 end OxiVerif.C14
